@@ -151,8 +151,13 @@ def fcn_params(draw, noise=False):
          "cashAmount": 1000, "assetVolume": 10}
     if draw(st.booleans()):
         p["meanReversionTime"] = {"const": [draw(st.integers(0, 60))]}
-    if draw(st.booleans()):
+    r = draw(st.integers(0, 3))
+    if r == 0:
         p["marginType"] = "fixed"
+    elif r == 1 and not noise:
+        # "normal" margin mode: price = expected price + N(0,1) * margin -- the side rule and well-formedness still apply
+        p["marginType"] = "normal"
+        p["orderMargin"] = {"const": [draw(st.sampled_from([0.0, 0.5, 2.0]))]}
     return p
 
 
@@ -186,6 +191,11 @@ def fcn_check_orders(agent, m, orders, E_expected=None):
         want = E_expected * (1 - agent.order_margin) if side == "buy" else E_expected * (1 + agent.order_margin)
         if o.is_buy != (side == "buy"):
             raise Violation("C20.fcn_side", f"expected price {E_expected!r}, market price {p!r}: emitted a {'buy' if o.is_buy else 'sell'}")
+        if getattr(agent, "margin_type", 0) == 1:
+            # normal-margin mode: the quote is the expected price plus Gaussian noise of scale orderMargin
+            if o.kind != LIMIT_ORDER or o.volume != 1 or abs(o.price - E_expected) > 8 * agent.order_margin + 1e-9 * E_expected:
+                raise Violation("C20.fcn_price_normal_margin", f"{side} at {o.price!r}, expected price {E_expected!r}, margin scale {agent.order_margin}")
+            return E_expected
         if o.kind != LIMIT_ORDER or not math.isclose(o.price, want, rel_tol=1e-9):
             raise Violation("C20.fcn_price", f"{side} at {o.price!r}, documented {want!r} (E {E_expected!r}, margin {agent.order_margin})")
         if o.volume != 1:
@@ -224,6 +234,8 @@ def fcn_check(case):
         fcn_check_orders(a, m, mine, E_expected=E)
         p = m.get_market_price()
         classes.add("buy" if E > p else ("sell" if E < p else "none"))
+        if getattr(a, "margin_type", 0) == 1:
+            classes.add("normal_margin")
         if m.get_time() > a.time_window_size:
             classes.add("window_shorter_than_history")
         if C != 0:
